@@ -10,7 +10,7 @@
      resolveRelToBase        -> [strip_prefix] + [check_dirs]
      ensureLinkPath          -> [link_ok]
    Paths are lists of components; a tar header name is prefix ++ rel. *)
-From Oras Require Import Base.Prelude.
+From Oras Require Import Base.Prelude Generated.GC12.
 
 Definition name := str.
 Definition path := list name.
@@ -102,7 +102,8 @@ Inductive xerr :=
 | XAbsLink        (* absolute link target: not modelled (needs the absolute base) *)
 | XWriteThrough   (* (unused since writeFile replaces an existing symlink instead of writing through it) *)
 | XDigest         (* content digest mismatch *)
-| XCodec.         (* gzip / tar decoding failed *)
+| XCodec          (* gzip / tar decoding failed *)
+| XPerm.          (* EACCES: an unprivileged owner lacks write/search permission on the directory *)
 
 Inductive res (A : Type) := Ok (a : A) | Err (e : xerr).
 Arguments Ok {A} a.
@@ -124,9 +125,21 @@ Definition is_file (o : option node) : bool :=
 
 (* resolveRelToBase's loop, os.Lstat(base/dir) for every proper non-empty prefix dir of the
    path: none may be a symlink (explicit error; a symlink further up is resolved by the kernel
-   and ends in this or another error), and none but the deepest may be a regular file
-   (ENOTDIR is not IsNotExist, so it is returned); a missing one is fine *)
+   and ends in this or another error); a directory that does not exist -- also because a
+   component above it is a regular file (ENOTDIR) or longer than NAME_MAX (ENAMETOOLONG) --
+   is fine: nothing can be a symbolic link there *)
 Fixpoint check_dirs (f : fs) (acc rest : path) : bool :=
+  match rest with
+  | [] => true
+  | x :: rest' =>
+      match rest' with
+      | [] => true
+      | _ :: _ => negb (is_link (fs_lookup f (acc ++ [x]))) && check_dirs f (acc ++ [x]) rest'
+      end
+  end.
+
+(* before the fix ENOTDIR was returned as an error: no prefix but the deepest could be a regular file *)
+Fixpoint check_dirs_prefix (f : fs) (acc rest : path) : bool :=
   match rest with
   | [] => true
   | x :: rest' =>
@@ -138,7 +151,7 @@ Fixpoint check_dirs (f : fs) (acc rest : path) : bool :=
           | [] => true
           | _ :: _ => negb (is_file (fs_lookup f (acc ++ [x])))
           end &&
-          check_dirs f (acc ++ [x]) rest'
+          check_dirs_prefix f (acc ++ [x]) rest'
       end
   end.
 
@@ -207,6 +220,11 @@ Definition parent_is_dir (f : fs) (rel : path) : bool :=
   | _ => match fs_lookup f (parent rel) with Some (NDir _) => true | _ => false end
   end.
 
+(* mkdir(2) in a set-group-ID directory: the new directory is set-group-ID as well *)
+Definition sgid : N := 1024.
+Definition inherited_sgid (f : fs) (parentp : path) : N :=
+  match fs_lookup f parentp with Some (NDir pm) => N.land pm sgid | _ => 0 end.
+
 (* os.MkdirAll(path, mode) on the reversed path *)
 Fixpoint mkdir_all (umask m : N) (f : fs) (rp : path) : res fs :=
   match fs_lookup f (rev rp) with
@@ -217,7 +235,8 @@ Fixpoint mkdir_all (umask m : N) (f : fs) (rp : path) : res fs :=
       | [] => Ok (fs_set f [] (NDir (create_mode dir_create_bits umask m)))
       | _ :: rparent =>
           match mkdir_all umask m f rparent with
-          | Ok f' => Ok (fs_set f' (rev rp) (NDir (create_mode dir_create_bits umask m)))
+          | Ok f' => Ok (fs_set f' (rev rp) (NDir (N.lor (create_mode dir_create_bits umask m)
+                                                          (inherited_sgid f' (rev rparent)))))
           | Err e => Err e
           end
       end
@@ -236,7 +255,7 @@ Definition has_children (f : fs) (p : path) : bool :=
 Definition is_root (p : path) : bool := match p with [] => true | _ :: _ => false end.
 
 (* directories are created owner-writable (mode | 0700) and get their recorded mode at io.EOF *)
-Definition owner_rwx : N := 448.
+Definition owner_rwx : N := c12_dir_owner_bits.   (* the literal of mode|0700, regenerated from extractTarDirectory *)
 
 Definition extract_entry (pre : path) (umask : N) (preserve : bool) (f : fs) (e : entry) : res fs :=
   match strip_prefix pre (e_name e) with
@@ -312,7 +331,8 @@ Fixpoint extract_list (pre : path) (umask : N) (preserve : bool) (f : fs) (es : 
   end.
 
 (* pushDir: ensureDir(target) = MkdirAll(target, 0777) then the extraction *)
-Definition fs_init (umask : N) : fs := [([], NDir (create_mode dir_create_bits umask 511))].
+(* the 0777 is the literal of ensureDir's os.MkdirAll, regenerated from content/file/file.go *)
+Definition fs_init (umask : N) : fs := [([], NDir (create_mode dir_create_bits umask c12_ensure_dir_perm))].
 
 (* extractTarDirectory before the fixes of the directory modes: recorded modes applied at
    once, nothing after the last entry *)
@@ -351,6 +371,105 @@ Definition extract (pre : path) (umask : N) (preserve : bool) (es : list entry) 
   | Err x => Err x
   end.
 
+(* the same into a working directory that is set-group-ID: pushDir's MkdirAll makes the base
+   directory set-group-ID as well ([sg] = sgid, or 0 for an ordinary working directory) *)
+Definition fs_init_sg (umask sg : N) : fs :=
+  [([], NDir (N.lor (create_mode dir_create_bits umask c12_ensure_dir_perm) sg))].
+
+Definition extract_sg (sg : N) (pre : path) (umask : N) (preserve : bool) (es : list entry) : res fs :=
+  match extract_list pre umask preserve (fs_init_sg umask sg) es with
+  | Ok f => Ok (finish_dirs pre preserve es f)
+  | Err x => Err x
+  end.
+
+(* ---------- an unprivileged user: the kernel's permission check on creating an entry ----------
+   Every object of the restored directory belongs to the user who unpacks.  Root passes every
+   check; an unprivileged owner needs write and search permission (0300) on the directory in
+   which an entry is created, replaced or removed.  (Truncating an existing file needs its own
+   write bit and chmod needs search permission on the ancestors: not modelled, see props.) *)
+Definition owner_wx : N := 192.
+Definition has_wx (m : N) : bool := N.land m owner_wx =? owner_wx.
+
+(* the nearest existing ancestor-or-self of the reversed path decides *)
+Fixpoint ancestor_wx (f : fs) (rp : path) : bool :=
+  match fs_lookup f (rev rp) with
+  | Some (NDir m) => has_wx m
+  | Some _ => true                 (* not a directory: another error comes first *)
+  | None => match rp with
+            | [] => true
+            | _ :: rparent => ancestor_wx f rparent
+            end
+  end.
+
+Definition perm_ok (priv : bool) (pre : path) (f : fs) (e : entry) : bool :=
+  priv ||
+  match strip_prefix pre (e_name e) with
+  | None => true
+  | Some rel =>
+      match e_kind e, fs_lookup f rel with
+      | EDir, Some (NDir _) => true             (* exists: nothing is created *)
+      | EReg _, Some (NFile _ _) => true        (* truncated in place *)
+      | EDir, _ => ancestor_wx f (rev rel)      (* MkdirAll: the first missing element is created in the nearest existing one *)
+      | _, _ => ancestor_wx f (rev (parent rel))
+      end
+  end.
+
+Definition extract_entry_p (priv : bool) (pre : path) (umask : N) (preserve : bool) (f : fs) (e : entry) : res fs :=
+  match extract_entry pre umask preserve f e with
+  | Ok f' => if perm_ok priv pre f e then Ok f' else Err XPerm
+  | Err x => Err x
+  end.
+
+Fixpoint extract_list_p (priv : bool) (pre : path) (umask : N) (preserve : bool) (f : fs) (es : list entry) : res fs :=
+  match es with
+  | [] => Ok f
+  | e :: es' =>
+      match extract_entry_p priv pre umask preserve f e with
+      | Ok f' => extract_list_p priv pre umask preserve f' es'
+      | Err x => Err x
+      end
+  end.
+
+Definition extract_p (priv : bool) (pre : path) (umask : N) (preserve : bool) (es : list entry) : res fs :=
+  match extract_list_p priv pre umask preserve (fs_init umask) es with
+  | Ok f => Ok (finish_dirs pre preserve es f)
+  | Err x => Err x
+  end.
+
+(* what is on disk when the extraction stops: a failing entry has no effect of its own (the
+   checks come first, MkdirAll fails before it creates anything, os.Remove of a non-empty
+   directory removes nothing), the entries before it are there, and restoreDirModes has not
+   run: directories keep their creation mode *)
+Fixpoint extract_list_partial (priv : bool) (pre : path) (umask : N) (preserve : bool) (f : fs) (es : list entry) : fs * option xerr :=
+  match es with
+  | [] => (f, None)
+  | e :: es' =>
+      match extract_entry_p priv pre umask preserve f e with
+      | Ok f' => extract_list_partial priv pre umask preserve f' es'
+      | Err x => (f, Some x)
+      end
+  end.
+
+Definition extract_partial (priv : bool) (pre : path) (umask : N) (preserve : bool) (es : list entry) : fs * option xerr :=
+  match extract_list_partial priv pre umask preserve (fs_init umask) es with
+  | (f, None) => (finish_dirs pre preserve es f, None)
+  | (f, Some x) => (f, Some x)
+  end.
+
+(* the same check on the code before restoreDirModes (directories created with their recorded mode) *)
+Fixpoint extract_list_prefix_p (priv : bool) (pre : path) (umask : N) (preserve : bool) (f : fs) (es : list entry) : res fs :=
+  match es with
+  | [] => Ok f
+  | e :: es' =>
+      match extract_entry_prefix pre umask preserve f e with
+      | Ok f' => if perm_ok priv pre f e then extract_list_prefix_p priv pre umask preserve f' es' else Err XPerm
+      | Err x => Err x
+      end
+  end.
+
+Definition extract_prefix_p (priv : bool) (pre : path) (umask : N) (preserve : bool) (es : list entry) : res fs :=
+  extract_list_prefix_p priv pre umask preserve (fs_init umask) es.
+
 (* what the property expects to find at a path of the restored directory *)
 Fixpoint find_child (n : name) (ch : list (name * tree)) : option tree :=
   match ch with
@@ -382,6 +501,16 @@ Definition expected (umask : N) (preserve : bool) (t : tree) (p : path) : option
   | Some (File c m _) => Some (NFile c (restored_mode umask preserve m))
   | Some (Link tg _) => Some (NLink tg)
   | Some (Dir m _ _) => Some (NDir (restored_mode umask preserve m))
+  end.
+
+(* what the property can expect there: every directory made by mkdir(2) inherits the bit;
+   PreservePermissions sets the recorded mode exactly *)
+Definition expected_sg (sg umask : N) (preserve : bool) (t : tree) (p : path) : option node :=
+  match tree_get t p with
+  | None => None
+  | Some (File c m _) => Some (NFile c (restored_mode umask preserve m))
+  | Some (Link tg _) => Some (NLink tg)
+  | Some (Dir m _ _) => Some (NDir (if preserve then m else N.lor (N.ldiff m umask) sg))
   end.
 
 (* between the last entry and restoreDirModes: directories still have their creation mode,
@@ -422,10 +551,14 @@ Fixpoint names_nodupb (l : list name) : bool :=
   | x :: l' => negb (existsb (str_eqb x) l') && names_nodupb l'
   end.
 
+(* a name a file system can hold: not empty, not "." or "..", no '/' *)
+Definition name_okb (n : name) : bool :=
+  negb (str_eqb n []) && negb (str_eqb n [c_dot]) && negb (str_eqb n [c_dot; c_dot]) && negb (contains c_slash n).
+
 Fixpoint wf_treeb (t : tree) : bool :=
   match t with
   | Dir _ _ ch =>
-      names_nodupb (map fst ch) && forallb (fun nc => wf_treeb (snd nc)) ch
+      names_nodupb (map fst ch) && forallb name_okb (map fst ch) && forallb (fun nc => wf_treeb (snd nc)) ch
   | _ => true
   end.
 
@@ -453,20 +586,15 @@ Fixpoint file_paths (rel : path) (t : tree) : list path :=
   | Dir _ _ ch => flat_map (fun nc => file_paths (rel ++ [fst nc]) (snd nc)) ch
   end.
 
-(* no proper non-empty prefix of q is one of the link paths, and none but the deepest is a file path *)
+(* no proper non-empty prefix of q is one of the link paths ([isfile] is no longer consulted:
+   a target may pass through a regular file) *)
 Fixpoint prefixes_clear (islink isfile : path -> bool) (acc rest : path) : bool :=
   match rest with
   | [] => true
   | x :: rest' =>
       match rest' with
       | [] => true
-      | _ :: rest'' =>
-          negb (islink (acc ++ [x])) &&
-          match rest'' with
-          | [] => true
-          | _ :: _ => negb (isfile (acc ++ [x]))
-          end &&
-          prefixes_clear islink isfile (acc ++ [x]) rest'
+      | _ :: _ => negb (islink (acc ++ [x])) && prefixes_clear islink isfile (acc ++ [x]) rest'
       end
   end.
 
@@ -531,6 +659,20 @@ Section Codec.
                      | None => Ok f
                      end
                  end
+             end
+         end.
+
+  (* what Push leaves in the target directory, whether it succeeds or not: pushDir creates the
+     directory first; a blob that fails its own verification is not extracted; a wrong tar
+     digest is noticed only after the whole archive has been extracted *)
+  Definition unpack_residue (umask : N) (preserve : bool) (d : descriptor) (blob : str) : fs :=
+    if negb (digest_eqb (H blob) (d_digest d) && (N.of_nat (length blob) =? d_size d)) then fs_init umask
+    else match gunz blob with
+         | None => fs_init umask
+         | Some tarb =>
+             match dec tarb with
+             | None => fs_init umask
+             | Some es => fst (extract_partial true (d_title d) umask preserve es)
              end
          end.
 
